@@ -146,6 +146,10 @@ def main(argv=None):
         if res['nontrivial']:
             sample = dict(case=dict(case, ops=case['ops'][:10]), lines=res['lines'][:14], real=res['real'][:14])
         ck.case(case, res['nontrivial'], sample=sample)
+        for tb in res.get('tie', []):
+            if not any(tb in m['what'] for m in ck.mismatches):
+                ck.mismatch('a fact the model relies on no longer holds in the code: ' + tb,
+                            dict(case, note='probed on every tpc_finish, see c13_lib.Env._probe_finish'))
         seen, unknown = set(), 0
         for sig, what in res['problems']:
             if sig in seen:
